@@ -61,6 +61,14 @@ def build_describe_action(codemod_registry: CodemodRegistry):
     return DescribeAction
 
 
+def positive_int(value: str) -> int:
+    """`--max-workers 0` would only fail later, when the thread pool is created."""
+    number = int(value)
+    if number < 1:
+        raise argparse.ArgumentTypeError("must be a positive integer")
+    return number
+
+
 class CsvListAction(argparse.Action):
     """
     argparse Action to convert "a,b,c" into ["a", "b", "c"]
@@ -153,7 +161,7 @@ def parse_args(argv, codemod_registry: CodemodRegistry):
     )
     parser.add_argument(
         "--max-workers",
-        type=int,
+        type=positive_int,
         default=1,
         help="maximum number of workers (threads) to use for processing files in parallel",
     )
